@@ -247,6 +247,25 @@ func checkC10(c C10Case, r *Rec) *Violation {
 				return Violf("C10: evaluation %d differs from the reference on the dumped program\n%s\nengine=%v\nreference=%s", k+1, where(), o, refString(kv, kerr))
 			}
 
+			// (vi) nothing but folding and reordering may change which registered operators run: with both
+			// off (ReduceNesting / FastEvaluation at most) the first evaluation makes exactly the
+			// registered-operator calls that left-to-right evaluation of the SOURCE makes, whenever that succeeds
+			if k == 0 && mask&(MaskFold|MaskReorder) == 0 && rerr == nil {
+				var got, want []m.Ev
+				for _, ev := range log.Ev {
+					if ev.Op != "" {
+						got = append(got, ev)
+					}
+				}
+				for _, ev := range ref.Trace {
+					if ev.Op != "" {
+						want = append(want, ev)
+					}
+				}
+				if !MatchTrace(got, want) {
+					return Violf("C10: with ConstantFolding and Reordering off the program does not run the registered operators the source runs (a call was dropped, added or merged at compile time)\n%s\nengine=%v\nsource =%v", where(), m.TraceStrings(got), m.TraceStrings(want))
+				}
+			}
 			// (iv) errors surface only if reached: without Reordering a succeeding left-to-right evaluation keeps its value
 			if k == 0 && pureOnly && mask&MaskReorder == 0 && rerr == nil && !Agrees(o, rv, nil) {
 				return Violf("C10: left-to-right evaluation of the source succeeds with %s but the compiled program returns %v\n%s", refString(rv, nil), o, where())
@@ -315,7 +334,7 @@ func checkC10(c C10Case, r *Rec) *Violation {
 
 var propC10 = Prop[C10Case]{
 	ID:    "C10",
-	Rule:  "constant-dense typed random trees with custom operators (a drawn subset declared stateless, the rest not; the stateful c_cnt never), failing constant sub-expressions (division by zero, bad version, ill-typed / wrong-count built-in calls, c_fail) under deciding and non-deciding and/or operands and in if branches, x 16 optimization subsets x k = 1..5 repeated evaluations. Oracles: Compile always succeeds; the compile-time call log holds only declared-stateless operators and is empty without ConstantFolding; every evaluation performs exactly the custom-operator calls (arguments, results) of R on the dumped tree with the operators' state threaded through; without Reordering a succeeding left-to-right evaluation keeps its value; with only ConstantFolding on, every place where the dump has a constant and the source a sub-tree satisfies the folding rule (validity predicate: folding less is fine). Non-trivial = an undeclared custom operator applied to constants only, or a failing constant sub-expression, or a variable under an and/or that a constant operand decides; distinct by source + stateless list + binding",
+	Rule:  "constant-dense typed random trees with custom operators (a drawn subset declared stateless, the rest not; the stateful c_cnt never), failing constant sub-expressions (division by zero, bad version, ill-typed / wrong-count built-in calls, c_fail) under deciding and non-deciding and/or operands and in if branches, x 16 optimization subsets x k = 1..5 repeated evaluations. Oracles: Compile always succeeds; the compile-time call log holds only declared-stateless operators and is empty without ConstantFolding; every evaluation performs exactly the custom-operator calls (arguments, results) of R on the dumped tree with the operators' state threaded through; without Reordering a succeeding left-to-right evaluation keeps its value; with ConstantFolding and Reordering both off the first evaluation makes exactly the registered-operator calls of left-to-right evaluation of the source (when that succeeds); with only ConstantFolding on, every place where the dump has a constant and the source a sub-tree satisfies the folding rule (validity predicate: folding less is fine). Non-trivial = an undeclared custom operator applied to constants only, or a failing constant sub-expression, or a variable under an and/or that a constant operand decides; distinct by source + stateless list + binding",
 	Gen:   genC10,
 	Check: checkC10,
 }
